@@ -233,7 +233,7 @@ def sampler_suite(ctx, suite, n, all_atom_only=False, oracle=None):
 def gen_case_wellformed(rng, all_atom=None):
     """fragment sets in which growth can always continue: every descriptor has a complement"""
     aa = rng.random() < 0.4 if all_atom is None else all_atom
-    style = rng.choice(['arrow', 'dollar', 'mixed', 'labelled'])
+    style = rng.choice(['arrow', 'dollar', 'mixed', 'labelled', 'dollar-labelled'])
     nf = rng.randint(1, 3)
     frags = []
     descs = set()
@@ -256,7 +256,10 @@ def gen_case_wellformed(rng, all_atom=None):
                     seen_ring = True
         order = rng.choice([1, 1, 1, 2, 0]) if not aa else rng.choice([1, 1, 1, 1, 0])
         sym = {2: '=', 0: '.'}.get(order, '')
-        lab = {'arrow': '', 'dollar': '', 'mixed': '', 'labelled': rng.choice(['a', 'b', '1', 'x2'])}[style]
+        # ('dollar-labelled': '$' descriptors with labels from a small pool — different samplers of one process share
+        # some labels and differ in others)
+        lab = {'arrow': '', 'dollar': '', 'mixed': '', 'labelled': rng.choice(['a', 'b', '1', 'x2']),
+               'dollar-labelled': rng.choice(['A', 'B', 'C'])}[style]
         if style in ('arrow', 'labelled') or (style == 'mixed' and i % 2 == 0):
             d1, d2 = '>' + lab, '<' + lab
         else:
